@@ -1,7 +1,7 @@
 CONSTANTS
   Thr16 = 40
   ThrN = 1
-  Thr32 = 5
+  Thr32 = 6
   MaxFiles = 2
   MaxChunks = 2
   MaxX = 2
